@@ -76,6 +76,23 @@ theorem C12_window_in_order {α} (actions : List α) (items : List Status) (conc
 theorem C12_no_concurrency_all_unset {α} (actions : List α) (items : List Status) :
     selectItems actions items none = notRun actions items := rfl
 
+/-- **C12**: an empty item list renders an offer with no action and an item count of zero -- the
+    form `get_next_tasks` hands out so that the provider completes the task at once -/
+theorem C12_empty_items_offer (ev : Expr → EvalCtx → Option Val) (ts : TaskSpec) (vars : Val.Dict)
+    (k : TaskKey) (its : ItemsSpec) (o : Offer) (h : ts.withItems = some its)
+    (hl : ev its.items { vars := vars, curTask := some k } = some (.list []))
+    (ho : renderTask ev ts vars k = .ok o) : o.actions = [] ∧ o.itemsCount = some 0 := by
+  unfold renderTask at ho
+  simp only [h, hl, optErr, bind, Except.bind, pure, Except.pure, List.zipIdx_nil, List.mapM_nil] at ho
+  repeat' split at ho
+  all_goals (first | (cases ho; done) | (cases ho; simp))
+
+/-- **C12**: the window of an offer without actions has no action and keeps the item count -/
+theorem C12_empty_window (o o' : Offer) (items : List Status) (ha : o.actions = [])
+    (h : windowOf o items = .ok o') : o'.actions = [] ∧ o'.itemsCount = o.itemsCount := by
+  unfold windowOf at h
+  split at h <;> cases h <;> simp [selectItems, notRun, ha]
+
 /-- **C12**: the only item event that makes a with-items task `succeeded` is a succeeded item
     while no other item is active, paused, canceled, failed or incomplete -/
 theorem C12_item_success_unique : ∀ (tk ev : Status) (a p c f i : Bool),
